@@ -12,18 +12,23 @@
 (*   "maskfields"  accept mask applied to u and x but not to logl           *)
 (*   "keepinf"     -inf prior draws are not replaced                        *)
 (*   "lostcalls"   one sweep's evaluations not added to calls               *)
+(*   "loadnothing" resume restores nothing (loaded dictionary discarded)     *)
 (***************************************************************************)
 EXTENDS PSRun
 
-CONSTANTS NP, G, MaxIter, Clustering, ClusterEvery, Metric, Cap, ImplVariant
+CONSTANTS NP, G, MaxIter, Clustering, ClusterEvery, Metric, Cap, ImplVariant, MaxCrashes
 
 VARIABLES nextId,   \* next fresh provenance id
           atOne,    \* number of batches committed at beta = 1 (posterior ESS grows with them)
+          disk,     \* <<>> or <<snapshot>>: the latest complete checkpoint (a save is atomic, see Checkpoint.tla)
+          crashes,  \* number of process deaths so far (bounded by MaxCrashes)
+          loaded,   \* <<>> or <<snapshot>>: the checkpoint the running process was resumed from
           bad       \* names of the PSRun clauses violated so far (always {} for the intended behaviour,
                     \* where the clauses are guards; for ImplVariant # "none" the steps are taken
                     \* unguarded, as the code takes them, and the violated clauses accumulate here)
 
-mcvars == <<vars, nextId, atOne, bad>>
+mcvars == <<vars, nextId, atOne, disk, crashes, loaded, bad>>
+ckvars == <<disk, crashes, loaded>>
 
 Guarded == ImplVariant = "none"
 \* take a step: intended = clauses are guards; code-shaped = update only, record what fails
@@ -39,6 +44,7 @@ MCInit ==
     /\ iter = 0 /\ beta = 0 /\ ess = 0 /\ logz = 0 /\ wts = 0 /\ calls = 0 /\ evals = 0
     /\ cur = <<>> /\ hist = <<>> /\ clus = [fitted |-> FALSE, K |-> 0] /\ modes = <<>> /\ nsw = 0
     /\ nextId = 1 /\ atOne = 0 /\ bad = {}
+    /\ disk = <<>> /\ crashes = 0 /\ loaded = <<>>
 
 Enough == atOne >= 1
 
@@ -98,11 +104,11 @@ MCReweight ==
     /\ Continue(Enough) /\ iter < MaxIter
     /\ \E o \in RWObs : All(RW_Clauses(o)) /\ ReweightU(o)   \* the oracle is always contract-conforming
     /\ bad' = bad
-    /\ UNCHANGED <<nextId, atOne>>
+    /\ UNCHANGED <<nextId, atOne, ckvars>>
 
-MCTrain == pc = "reweighted" /\ (\E o \in TRObs : Take(TR_Clauses(o), TrainU(o))) /\ UNCHANGED <<nextId, atOne>>
+MCTrain == pc = "reweighted" /\ (\E o \in TRObs : Take(TR_Clauses(o), TrainU(o))) /\ UNCHANGED <<nextId, atOne, ckvars>>
 
-MCResample == pc = "trained" /\ (\E o \in RSObs : Take(RS_Clauses(o), ResampleU(o))) /\ UNCHANGED <<nextId, atOne>>
+MCResample == pc = "trained" /\ (\E o \in RSObs : Take(RS_Clauses(o), ResampleU(o))) /\ UNCHANGED <<nextId, atOne, ckvars>>
 
 MCMutatePrior ==
     /\ pc = "resampled" /\ beta = 0
@@ -116,19 +122,19 @@ MCMutatePrior ==
                       zInHull |-> TRUE, logz |-> logz]
          IN Take(MP_Clauses(o), MutatePriorU(o))
     /\ nextId' = nextId + NP
-    /\ UNCHANGED atOne
+    /\ UNCHANGED <<atOne, ckvars>>
 
 MCMutateBegin ==
     /\ pc = "resampled" /\ beta > 0
     /\ LET o == [slots |-> cur, modes |-> modes, modesOK |-> TRUE, periodic |-> cfg.periodic, reflective |-> cfg.reflective]
        IN Take(MB_Clauses(o), MutateBeginU(o))
-    /\ UNCHANGED <<nextId, atOne>>
+    /\ UNCHANGED <<nextId, atOne, ckvars>>
 
 MCSweep ==
     /\ pc = "mutating" /\ nsw < 2
     /\ \E o \in SWObs : Take(SW_Clauses(o), SweepU(o))
     /\ nextId' = nextId + NP
-    /\ UNCHANGED atOne
+    /\ UNCHANGED <<atOne, ckvars>>
 
 MCMutateEnd ==
     /\ pc = "mutating" /\ nsw >= 1
@@ -136,7 +142,7 @@ MCMutateEnd ==
                  calls |-> IF ImplVariant = "lostcalls" /\ nsw = 2 THEN calls + NP ELSE calls + nsw * NP,
                  dEvals |-> nsw * NP, steps |-> nsw]
        IN Take(ME_Clauses(o), MutateEndU(o))
-    /\ UNCHANGED <<nextId, atOne>>
+    /\ UNCHANGED <<nextId, atOne, ckvars>>
 
 MCCommit ==
     /\ pc = "mutated"
@@ -144,16 +150,36 @@ MCCommit ==
                  keyLens |-> <<Len(hist) + 1>>, prefixSame |-> TRUE]
        IN Take(CM_Clauses(o), CommitU(o))
     /\ atOne' = IF beta = cfg.one THEN atOne + 1 ELSE atOne
-    /\ UNCHANGED nextId
+    /\ UNCHANGED <<nextId, ckvars>>
 
 MCTerminate ==
     /\ pc = "ready" /\ ~Continue(Enough) /\ hist # <<>>
     /\ LET o == [nearOne |-> (beta = cfg.one), essPost |-> 1, evid |-> 7, evidAt |-> 7]
        IN Take(TM_Clauses(o), TerminateU(o))
-    /\ UNCHANGED <<nextId, atOne>>
+    /\ UNCHANGED <<nextId, atOne, ckvars>>
+
+\* ---------------------------------------------------------------- checkpoints, process death, resume
+MCSave ==
+    /\ pc = "ready" /\ hist # <<>> /\ MaxCrashes > 0
+    /\ disk' = <<Snap>>
+    /\ UNCHANGED <<vars, nextId, atOne, crashes, loaded, bad>>
+
+\* the process dies at any step boundary (inside a save is Checkpoint.tla's business)
+MCCrash ==
+    /\ pc \notin {"ctor", "done", "dead"} /\ crashes < MaxCrashes /\ disk # <<>>
+    /\ pc' = "dead" /\ crashes' = crashes + 1
+    /\ UNCHANGED <<cfg, iter, beta, ess, logz, wts, calls, evals, cur, hist, clus, modes, nsw, nextId, atOne, disk, loaded, bad>>
+
+MCResume ==
+    /\ pc = "dead" /\ disk # <<>>
+    /\ IF ImplVariant = "loadnothing" THEN ResumeNothingU(disk[1]) ELSE ResumeU(disk[1])
+    /\ loaded' = disk
+    /\ atOne' = Cardinality({t \in DOMAIN disk[1].hist : disk[1].hist[t].beta = cfg.one})
+    /\ UNCHANGED <<nextId, disk, crashes, bad>>
 
 MCNext ==
-    \/ (InitFresh /\ UNCHANGED <<nextId, atOne, bad>>)
+    \/ (InitFresh /\ UNCHANGED <<nextId, atOne, ckvars, bad>>)
+    \/ MCSave \/ MCCrash \/ MCResume
     \/ MCReweight \/ MCTrain \/ MCResample \/ MCMutatePrior \/ MCMutateBegin
     \/ MCSweep \/ MCMutateEnd \/ MCCommit \/ MCTerminate
 
@@ -163,6 +189,15 @@ MCSpec == MCInit /\ [][MCNext]_mcvars
 NoStuck == (pc # "done" /\ iter < MaxIter) => ENABLED MCNext
 
 NoClauseFails == bad = {}
+
+\* C08: right after a resume everything that was saved is there again, and at every later state the restored history is
+\* a prefix of the history (iteration numbering and call counting continue: OneBatchPerIteration / CallsExact keep holding)
+ResumeExact ==
+    (loaded # <<>>) =>
+        /\ Len(hist) >= Len(loaded[1].hist)
+        /\ SubSeq(hist, 1, Len(loaded[1].hist)) = loaded[1].hist
+        /\ iter >= loaded[1].iter /\ calls >= loaded[1].calls /\ beta >= loaded[1].beta
+NeverResumed == loaded = <<>>
 
 \* reachability witnesses (must be VIOLATED when listed as invariants: non-vacuity)
 NeverDone      == pc # "done"
